@@ -274,7 +274,8 @@ struct flat_set {
         requires etl::detail::is_transparent_v<Compare>
     [[nodiscard]] constexpr auto count(K const& key) const -> size_type
     {
-        return find(key) == end() ? 0 : 1;
+        // a heterogeneous key may be equivalent to several elements
+        return static_cast<size_type>(upper_bound(key) - lower_bound(key));
     }
 
     [[nodiscard]] constexpr auto contains(key_type const& key) const -> bool { return count(key) == 1; }
@@ -283,7 +284,7 @@ struct flat_set {
         requires etl::detail::is_transparent_v<Compare>
     [[nodiscard]] constexpr auto contains(K const& key) const -> bool
     {
-        return count(key) == 1;
+        return find(key) != end();
     }
 
     [[nodiscard]] constexpr auto lower_bound(key_type const& key) -> iterator
